@@ -15,6 +15,18 @@ def observedCalls : List Call :=
    { nodes := ["rating-predictor"], inputs := [("items", Arg.testItems), ("query", Arg.user)] },
    { nodes := ["scorer"], inputs := [("items", Arg.testItems), ("query", Arg.user)] }]
 
+/-- …for a key `(user_id, seq)` that carries more than the user -/
+def observedCallsCompositeKey : List Call :=
+  [{ nodes := ["recommender"], inputs := [("n", Arg.int (0)), ("query", Arg.user)] },
+   { nodes := ["rating-predictor"], inputs := [("items", Arg.testItems), ("query", Arg.user)] },
+   { nodes := ["scorer"], inputs := [("items", Arg.testItems), ("query", Arg.user)] }]
+
+/-- …and for a key without a user -/
+def observedCallsNoUser : List Call :=
+  [{ nodes := ["recommender"], inputs := [("n", Arg.int (0))] },
+   { nodes := ["rating-predictor"], inputs := [("items", Arg.testItems)] },
+   { nodes := ["scorer"], inputs := [("items", Arg.testItems)] }]
+
 /-- the output names the worker filed its results under -/
 def observedOutputs : List String := ["recommendations", "predictions", "scores"]
 
